@@ -71,6 +71,8 @@ pub struct Sent {
     pub op: Op,
     pub ok: bool,
     pub epoch: u32,
+    /// Simulated time (ms since the start of the run) at which the operation was completed.
+    pub end_ms: u64,
 }
 
 #[derive(Debug, Clone)]
@@ -381,7 +383,7 @@ async fn peer_writer(
                 ok = false;
             }
         }
-        hist.borrow_mut().sent.push(Sent { start, end: now_step(), peer: script.id, op: op.clone(), ok, epoch });
+        hist.borrow_mut().sent.push(Sent { start, end: now_step(), peer: script.id, op: op.clone(), ok, epoch, end_ms: super::model::sim_ms() });
     }
     shared.borrow_mut().writer_done = true;
     // Keep the write half open until the harness ends the run (a peer that has nothing more to
